@@ -71,6 +71,27 @@ def cases_1d(rep, rnd, tier):
                         ex.update(exact=1, xf=[core.rat(F(x)) for x in m.xf], L=core.rat(L), rr=core.rat(ratio))
                 recs.append(rec_1d("refined", m, n, 0.0, L, ex))
                 rep.nontrivial.add(("refined", n, ratio, a, b, L))
+    # whole-number proportions: EVERY (a, b) <= 10 and ncell = k (a + b): the first zone holds exactly k a cells (an integer the
+    # code must not lose to float rounding of a/(a+b)) and the size ratio is the requested one
+    props = [(a, b, k) for a in range(1, 11) for b in range(1, 11) for k in range(1, 41)]
+    if tier == "quick":
+        props = [t for t in props if t[2] <= 3] + rnd.sample(props, 900)
+    for (a, b, k) in props:
+        n = k * (a + b)
+        ratio = [2.0, 0.5, 3.0][(a + b + k) % 3]
+        m = fd.mesh.refinedmesh(ncell=n, length=1.0, ratio=ratio, nratioa=a, nratiob=b)
+        vol = np.asarray(m.vol(), dtype=float)
+        nc1 = k * a
+        ex = dict(whole=1, a=a, b=b)
+        if len(vol) == n:
+            v1, v2 = vol[:nc1], vol[nc1:]
+            sc = float(np.max(np.abs(np.asarray(m.xf))))
+            ex["z1"] = max([core.ulps(v, v1[0], sc) for v in v1] or [0])
+            ex["z2"] = max([core.ulps(v, v2[0], sc) for v in v2] or [0])
+            ex["ratio"] = core.ulps(v2[0] / v1[0], ratio, ratio * max(1.0, sc / min(v1[0], v2[0])))
+        recs.append(rec_1d("refined", m, n, 0.0, 1.0, ex))
+        rep.nontrivial.add(("refined-whole", n, ratio, a, b))
+    for n in ns:
         morphs = [("id", lambda x: x), ("quad", lambda x: x + 0.3 * x * (1.0 - x)), ("stretch", lambda x: 2.0 * x),
                   ("shift", lambda x: x + 1.5), ("cube", lambda x: x ** 3 + x), ("exp", lambda x: np.exp(x) - 1.0)]
         for name, mf in morphs:
